@@ -35,6 +35,18 @@ def transpose (n : Nat) (A : List (List α)) : List (List α) :=
 def linComb (n : Nat) (x : List α) (rows : List (List α)) : List α :=
   (List.zipWith (fun c r => smul c r) x rows).foldr vadd (List.replicate n 0)
 
+/-! literals without `OfNat`/`NatCast` instances -/
+def ten : α := two * (two * two + 1)
+def pow10 : Nat → α
+  | 0 => 1
+  | n + 1 => ten * pow10 n
+/-- natural number literal in α by binary digits (core-only); structural recursion on fuel so that the
+    kernel can evaluate it -/
+def ofNatAux : Nat → Nat → α
+  | 0, _ => 0
+  | f + 1, n => if n = 0 then 0 else if n % 2 = 0 then two * ofNatAux f (n / 2) else two * ofNatAux f (n / 2) + 1
+def ofNatLit (n : Nat) : α := ofNatAux (n.log2 + 1) n
+
 end
 
 section order
